@@ -261,6 +261,26 @@ func (u *Unit) specEffect(e *Effects, fs *FuncSpec, name string) {
 	switch fs.Effect {
 	case "pure", "opaque":
 	default:
+		if strings.HasPrefix(fs.Effect, "fields ") {
+			parts := strings.Fields(fs.Effect)
+			// the struct is found by field name among the package's structs
+			for _, f := range parts[2:] {
+				for _, sn := range u.pkg.Pkg.Scope().Names() {
+					t := u.eng.lookupStruct(u.pkg, sn)
+					if t == nil {
+						continue
+					}
+					stt := t.Underlying().(*types.Struct)
+					for i := 0; i < stt.NumFields(); i++ {
+						if stt.Field(i).Name() == f && fs.EffectStruct == sn {
+							hn, hs, _ := u.fieldHeapName(t, i)
+							e.heaps[hn] = hs
+						}
+					}
+				}
+			}
+			return
+		}
 		e.all, e.why = true, "callback "+name
 	}
 }
